@@ -35,6 +35,18 @@ def cases(chk):
     ]
     for c in corpus:
         yield "random", c
+    # a refused send among concurrent senders
+    for _ in range(chk.scale(120, 3000)):
+        nt = r.randint(2, 4)
+        sid = [0]
+
+        def fresh2():
+            sid[0] += 1
+            return sid[0] if r.random() < 0.65 else -sid[0]
+        work = [[fresh2() for _i in range(r.randint(1, 3))] for _t in range(nt)]
+        if not any(s_ < 0 for t in work for s_ in t):
+            work[0][0] = -abs(work[0][0])
+        yield "failing", {"work": work, "seed": r.randrange(1 << 30), "entry": r.choice(["top", "coder", "coder"])}
     # frames still waiting in the dispatcher when the connection is lost, then a reconnect on the same stack
     for first, accept in (([300, 40, 1000], 0), ([70000], 1000), ([5], 0), ([100, 100], 1 << 20)):
         yield "backlog", {"first": first, "accept": accept, "second": [7, 300]}
@@ -87,6 +99,9 @@ def nontrivial(stream, case):
 
 def node_for(sid):
     from yowsup.structs import ProtocolTreeNode
+    if sid < 0:
+        # a stanza the session below refuses (stream 'failing')
+        return ProtocolTreeNode("iq", {"id": "s%d" % sid, "type": "get", "xmlns": "w:p"}, [ProtocolTreeNode("ping", data=b"REFUSEME")])
     return ProtocolTreeNode("iq", {"id": "s%d" % sid, "type": "get", "xmlns": "w:p"}, [ProtocolTreeNode("ping", data=b"x" * (sid % 7))])
 
 
@@ -103,7 +118,13 @@ def execute(work, choose, preempt=None, entry="top", inbound=0, other_login=0):
     for stanzas in work:
         def body(stanzas=stanzas):
             for sid in stanzas:
-                top.send(node_for(sid))
+                if sid < 0:
+                    try:
+                        top.send(node_for(sid))
+                    except concstack.SendRefused:
+                        pass            # the failure is reported to this sender; the others go on
+                else:
+                    top.send(node_for(sid))
         c.spawn(body)
     if inbound:
         # the connection's reader thread: inbound frames of other lengths come up through the same layers while the senders are at work
@@ -680,6 +701,16 @@ def run_case(chk, stream, case):
         chk.hit("preempt:inbound=%d" % min(case.get("inbound", 0), 1))
         chk.hit("preempt:threads=%d" % len(case["work"]), "preempt:p=%s" % case["prob"])
         return check_run(chk, case, c, writes, L, err, "preempt")
+    if stream == "failing":
+        # senders of which some have a send REFUSED below the layers' locks while the others are waiting for those locks or are at work: the
+        # refusal is reported to its sender, and the stanzas of the others still reach the wire whole, in counter order, exactly once (oracle only:
+        # the Lean model of the send path has no failing sends; what a failure does to the locks one at a time is C12's model)
+        r = random.Random(case["seed"])
+        c, writes, L, err = execute(case["work"], coop.chooser(r), entry=case.get("entry", "top"))
+        chk.hit("failing:threads=%d" % len(case["work"]))
+        good = dict(case, work=[[s_ for s_ in t if s_ > 0] for t in case["work"]])
+        fs = check_run(chk, good, c, writes, L, err, "failing")
+        return [f for f in fs if f.kind == "oracle"]
     if stream == "random":
         r = random.Random(case["seed"])
         c, writes, L, err = execute(case["work"], coop.chooser(r))
